@@ -145,4 +145,101 @@ Proof using u_range fsub_ok fmul_ok fdiv_ok.
     now replace (S t + i)%nat with (i + S t)%nat by lia.
 Qed.
 
+(* ---------------------------------------------------------------- the forward phase: (L + dL) y = P b *)
+Lemma length_fterms (h : list (R * nat)) (y : list R) : @length (R * R) (fterms (A := AR) h y) = length h.
+Proof. unfold fterms. now rewrite map_length. Qed.
+
+Lemma nth_fterms (h : list (R * nat)) (y : list R) t : (t < length h)%nat ->
+  nth t (fterms (A := AR) h y) (0, 0) = (fst (nth t h (0, 0%nat)), nth (snd (nth t h (0, 0%nat))) y 0).
+Proof.
+  intros Ht. pose (f := fun p : R * nat => (fst p, nth (snd p) y 0)).
+  change (nth t (map f h) (0, 0) = f (nth t h (0, 0%nat))).
+  rewrite (nth_indep (map f h) (0, 0) (f (0, 0%nat))) by now rewrite map_length.
+  apply map_nth.
+Qed.
+
+(* one row of the forward phase out of its trace *)
+Lemma fwd_row (h : list (R * nat)) (y : list R) (s v : R) :
+  v = sfold (A := AR) (fterms (A := AR) h y) s -> INR (length h) * u < 1 ->
+  exists (dd : R) (dL : nat -> R),
+    Rabs dd <= gam (length h) /\
+    (forall t, (t < length h)%nat -> Rabs (dL t) <= gam (length h) * Rabs (fst (nth t h (0, 0%nat)))) /\
+    (1 + dd) * v
+    + Rsum (length h) (fun t => (fst (nth t h (0, 0%nat)) + dL t) * nth (snd (nth t h (0, 0%nat))) y 0) = s.
+Proof using u_range fsub_ok fmul_ok.
+  intros Tr Hu.
+  assert (E1 : v * 1 = sfold (A := AR) (fterms (A := AR) h y) s) by (rewrite Rmult_1_r; exact Tr).
+  destruct (sfold_row (fterms (A := AR) h y) s v 1 0 (length h) (bnd_0 u) E1
+              ltac:(rewrite length_fterms; lia) Hu) as (dd & d & Hdd & Hd & Es).
+  rewrite length_fterms in Hd, Es.
+  exists dd, d. split; [exact Hdd|]. split.
+  - intros t Ht. specialize (Hd t Ht). rewrite nth_fterms in Hd by exact Ht. exact Hd.
+  - rewrite <- Es. f_equal; [ring|]. apply Rsum_ext. intros t Ht. now rewrite nth_fterms by exact Ht.
+Qed.
+
+Theorem band_forward_backward_error_lemma (al : matrix AR) (index : list nat) (n m1 : nat) (b y : list R) (lf : nat) :
+  cols al = m1 -> (m1 <= n)%nat -> length b = n ->
+  (forall k, (k < n)%nat -> (k + 1 <= nth k index 0%nat)%nat) ->
+  for_ 0 n (fwd_step (A := AR) n al index) (b, m1) = Ok (y, lf) ->
+  length y = n /\
+  forall r, (r < n)%nat ->
+    let h : list (R * nat) := fhist (A := AR) n m1 al index n r in
+    (length h <= r)%nat /\
+    (forall t, (t < length h)%nat -> (snd (nth t h (0%R, 0%nat)) < r)%nat) /\
+    (INR (length h) * u < 1 ->
+     exists (dd : R) (dL : nat -> R),
+       Rabs dd <= gam (length h) /\
+       (forall t, (t < length h)%nat -> Rabs (dL t) <= gam (length h) * Rabs (fst (nth t h (0, 0%nat)))) /\
+       (1 + dd) * nth r y 0
+       + Rsum (length h) (fun t => (fst (nth t h (0, 0%nat)) + dL t) * nth (snd (nth t h (0, 0%nat))) y 0)
+       = nth (fperm index n r) b 0).
+Proof using u_range fsub_ok fmul_ok.
+  intros Hc Hm Lb Hix E.
+  destruct (band_fwd_trace (A := AR) al index n m1 b y lf Hc Hm Lb Hix E) as (Ly & Tr). split; [exact Ly|].
+  intros r Hr. cbn zeta. split; [exact (fhist_final_length (A := AR) n m1 al index r Hix Hr)|]. split.
+  - intros t Ht. apply (fhist_final_tags (A := AR) n m1 al index r); [exact Hix|exact Hr|]. now apply nth_In.
+  - intros Hu. apply fwd_row; [exact (Tr r)|exact Hu].
+Qed.
+
+(* without row exchanges (index[k] = k+1, e.g. matrices for which the pivot search never leaves the diagonal):
+   L is the unit lower BAND matrix L_(r,j) = al[j][r-j-1], r - m1 <= j < r, and the constant is gam (min r m1) <= gam m1 *)
+Theorem band_forward_noswap_backward_error_lemma (al : matrix AR) (index : list nat) (n m1 : nat) (b y : list R) (lf : nat) :
+  cols al = m1 -> (m1 <= n)%nat -> length b = n -> INR m1 * u < 1 ->
+  (forall k, (k < n)%nat -> nth k index 0%nat = (k + 1)%nat) ->
+  for_ 0 n (fwd_step (A := AR) n al index) (b, m1) = Ok (y, lf) ->
+  length y = n /\
+  forall r, (r < n)%nat ->
+    exists (dd : R) (dL : nat -> R),
+      Rabs dd <= gam (Nat.min r m1) /\
+      (forall t, (t < Nat.min r m1)%nat ->
+         Rabs (dL t) <= gam (Nat.min r m1)
+                        * Rabs (mat_at (A := AR) al m1 (r - Nat.min r m1 + t) (r - (r - Nat.min r m1 + t) - 1))) /\
+      (1 + dd) * nth r y 0
+      + Rsum (Nat.min r m1)
+          (fun t => (mat_at (A := AR) al m1 (r - Nat.min r m1 + t) (r - (r - Nat.min r m1 + t) - 1) + dL t)
+                    * nth (r - Nat.min r m1 + t) y 0)
+      = nth r b 0.
+Proof using u_range fsub_ok fmul_ok.
+  intros Hc Hm Lb Hu Hix E.
+  assert (Hix' : forall k, (k < n)%nat -> (k + 1 <= nth k index 0%nat)%nat) by (intros k Hk; rewrite Hix by exact Hk; lia).
+  destruct (band_fwd_trace (A := AR) al index n m1 b y lf Hc Hm Lb Hix' E) as (Ly & Tr). split; [exact Ly|].
+  intros r Hr. specialize (Tr r).
+  rewrite (fperm_noswap index n n r Hix (le_n n)) in Tr.
+  rewrite (fhist_noswap (A := AR) n m1 al index r Hix Hr) in Tr.
+  set (c := Nat.min r m1) in *.
+  set (h := map (fun j => (mat_at (A := AR) al m1 j (r - j - 1), j)) (seq (r - c) c)) in *.
+  assert (Lh : @length (R * nat) h = c) by (unfold h; now rewrite map_length, seq_length).
+  assert (Nh : forall t, (t < c)%nat -> nth t h (0, 0%nat)
+               = (mat_at (A := AR) al m1 (r - c + t) (r - (r - c + t) - 1), (r - c + t)%nat)).
+  { intros t Ht. unfold h. now rewrite nth_map_seq_gen by exact Ht. }
+  assert (Huc : INR (@length (R * nat) h) * u < 1).
+  { rewrite Lh. assert (Hcm : (c <= m1)%nat) by (unfold c; lia). pose proof (le_INR _ _ Hcm) as Hcm'.
+    destruct u_range as [U0 _]. assert (0 <= (INR m1 - INR c) * u) by (apply Rmult_le_pos; lra). lra. }
+  destruct (fwd_row h y (nth r b 0) (nth r y 0) Tr Huc) as (dd & dL & Hdd & HdL & Es).
+  rewrite Lh in Hdd, HdL, Es.
+  exists dd, dL. split; [exact Hdd|]. split.
+  - intros t Ht. specialize (HdL t Ht). rewrite Nh in HdL by exact Ht. exact HdL.
+  - rewrite <- Es. f_equal. apply Rsum_ext. intros t Ht. now rewrite Nh by exact Ht.
+Qed.
+
 End RoundBand.
